@@ -168,6 +168,26 @@ def main(ck, tier, w, pid='C01'):
 
     if pid == 'C01':
         boundary(ck, w, seed, quick)
+        # chains indexed around heights at which consensus rules or historical accidents sit: nothing in csvdump depends on a height
+        from lib import extremes as xt
+        hs = xt.SPECIAL_HEIGHTS if not quick else [h for k, h in enumerate(xt.SPECIAL_HEIGHTS) if (k + seed) % 2 == 0 or h in (91842, 91880)]
+
+        def sp(h):
+            coin = ['bitcoin', 'litecoin', 'namecoin', 'dogecoin', 'testnet3'][h % 5]
+            sb = xt.special_height_chain(h, coin, seed)
+            sd = datadir.simple_dir(w.sub('dd'), sb, coin, h0=h - 1).write()
+            r = run.run_parser(sd, 'csvdump', dump=w.mk('out'), coin=coin, start=h - 1)
+            exp, tot = ref.csv_expected([(h - 1 + k, b) for k, b in enumerate(sb)], coin)
+            bad = [f for f in exp if r.files.get('%s-%d-%d.csv' % (f, h - 1, h + 1)) != exp[f]]
+            if not bad and r.rc == 0 and summary_totals(r.stdout) != tuple(tot):
+                bad = ['printed totals %s, rows written %s' % (summary_totals(r.stdout), tuple(tot))]
+            return h, coin, r, bad
+        for h, coin, r, bad in chains.pmap(sp, hs, 8):
+            ck.evals()
+            ck.distinct(('special-height', h, coin))
+            if r.rc != 0 or bad:
+                ck.violation('%s chain indexed at heights %d..%d: exit %d, differing from the reference: %s' % (coin, h - 1, h + 1, r.rc, bad),
+                             {'coin': coin, 'heights': [h - 1, h, h + 1], 'observed': r.brief(), 'tags': []})
         # counts and sizes beyond 16 bits: 66 000 transactions in a block, 65 600 inputs / outputs / witness items, 66 000-byte scripts
         from lib import extremes
         for coin in (['bitcoin', 'litecoin'] if quick else list(btc.COINS)):
